@@ -4,6 +4,7 @@
 package zzverifpositive
 
 import (
+	"archive/zip"
 	"encoding/csv"
 	stdhtml "html"
 	"io"
@@ -298,4 +299,19 @@ func CarriesIndent(items []listEntry, sb *strings.Builder) {
 		sb.WriteString(indent)
 		sb.WriteString(it.Text)
 	}
+}
+
+// OpensWithoutTruncate violates R14.12 EXPORT-TRUNCATES.
+func OpensWithoutTruncate(name string) (*os.File, error) {
+	return os.OpenFile(name, os.O_WRONLY|os.O_CREATE, 0o644)
+}
+
+// FindsMemberCaseInsensitively violates R18.13 MEMBER-NAME-EXACT.
+func FindsMemberCaseInsensitively(zr *zip.Reader, name string) *zip.File {
+	for _, f := range zr.File {
+		if strings.EqualFold(f.Name, name) {
+			return f
+		}
+	}
+	return nil
 }
